@@ -531,11 +531,23 @@ def pad(t, shape, dim=None, fill_value=0):
     if not hasattr(shape, "__len__"):
         shape = [shape] * len(dim)
 
+    if fill_value != 0:
+        # Zero-padded tensor, plus the constant on the complement of the original box
+        ones = tn.Tensor(
+            [
+                torch.ones(1, sh, 1, dtype=t.cores[0].dtype, device=t.cores[0].device)
+                for sh in t.shape
+            ]
+        )
+        padded_ones = pad(ones, shape, dim=dim)
+        outside = (
+            tn.Tensor([torch.ones_like(c) for c in padded_ones.cores]) - padded_ones
+        )
+        return pad(t, shape, dim=dim) + fill_value * outside
+
     t = t.clone()
     for i in range(len(dim)):
         mult = 0
-        if i == 0:
-            mult = fill_value
         if t.Us[dim[i]] is None:
             if t.cores[dim[i]].dim() == 2:
                 t.cores[dim[i]] = torch.cat(
